@@ -32,9 +32,15 @@ def split(tracefile, chunk):
     return files
 
 
-def validate(sw, tracefile, par, chunk=120000, timeout=1500):
-    """Returns bads = [(sid, i, key)] like vlib.validate_trace."""
+OTHER_RE = re.compile(r'^<<"OTHER", (\d+), (\d+), "([^"]*)">>')
+
+
+def validate(sw, tracefile, par, chunk=120000, timeout=1500, focus=("C08", "C17")):
+    """Returns (bads, others): bads = [(sid, i, key)] like vlib.validate_trace - rejections by
+    rules of the properties in `focus`; others = the first rule of the other family that
+    would have rejected a scenario (evidence only, the monitor went on judging the focus)."""
     files = split(tracefile, chunk)
+    fenv = {"FOCUS_C08": "1" if "C08" in focus else "0", "FOCUS_C17": "1" if "C17" in focus else "0"}
     if _sem[0] is None:          # one budget of TLC processes for all validations of a check run
         import threading
         _sem[0] = threading.BoundedSemaphore(max(1, par))
@@ -44,12 +50,16 @@ def validate(sw, tracefile, par, chunk=120000, timeout=1500):
             return one_(fn)
 
     def one_(fn):
-        r = vlib.tlc(sw, "WsSessionMonTrace", "WsSessionMonTrace.cfg", workers=1, timeout=timeout, env={"TRACE": fn, "JAVA_TOOL_OPTIONS": "-Xmx2g"})
-        bads = []
+        r = vlib.tlc(sw, "WsSessionMonTrace", "WsSessionMonTrace.cfg", workers=1, timeout=timeout, env=dict(fenv, TRACE=fn, JAVA_TOOL_OPTIONS="-Xmx2g"))
+        bads, others = [], []
         for line in r.lines('<<"BAD"'):
             m = vlib.BAD_RE.match(line)
             if m:
                 bads.append((int(m.group(1)), int(m.group(2)), m.group(3)))
+        for line in r.lines('<<"OTHER"'):
+            m = OTHER_RE.match(line)
+            if m:
+                others.append((int(m.group(1)), int(m.group(2)), m.group(3)))
         ok, why = r.ok, (r.error or r.violated)
         tail = "" if ok else r.tail(30)
         try:
@@ -57,13 +67,25 @@ def validate(sw, tracefile, par, chunk=120000, timeout=1500):
             os.remove(fn)
         except OSError:
             pass
-        return ok, why, tail, bads
+        return ok, why, tail, bads, others
 
-    bads = []
+    bads, others = [], []
     with ThreadPoolExecutor(max_workers=max(1, par)) as ex:
-        for ok, why, tail, b in ex.map(one, files):
+        for ok, why, tail, b, o in ex.map(one, files):
             if not ok:
                 raise vlib.Inconclusive("trace validation with WsSessionMonTrace did not complete: %s\n%s" % (why, tail))
             bads += b
+            others += o
     bads.sort()
-    return bads
+    others.sort()
+    return bads, others
+
+
+def note_others(ck, others, label):
+    """Rejections by rules of the other property of the shared monitor: evidence, not a verdict."""
+    if not others:
+        return
+    d = ck.cov.setdefault("other_property_rejections", {})
+    for sid, i, key in others:
+        e = d.setdefault(key, {"scenarios": 0, "first": {"run": label, "scenario": sid, "event": i}})
+        e["scenarios"] += 1
